@@ -10,10 +10,13 @@ CONSTANTS
  FixVaArg = FALSE
  FixVaArgLd = FALSE
  FixRetRax = FALSE
+ FixRetLoad = FALSE
+ FixPacked = FALSE
+ FixZero = FALSE
  Waived = {}
  MaxLen = 16
  RetSel = {"i", "S24"}
- ParamSel = {"See","Sel","i","l","p","f","d","e","Si","Sc3","Sd","Sff","Sfff","Sld","Sdl","Sdd","Sll","Sif","Udl","S24","Se","Sc16"}
+ ParamSel = {"S0","Sz","Siif","See","Sel","i","l","p","f","d","e","Si","Sc3","Sd","Sff","Sfff","Sld","Sdl","Sdd","Sll","Sif","Udl","S24","Se","Sc16"}
  Emit = TRUE
 VIEW GraphView
 INVARIANTS Agree RetAgree CountersAgree TypeOK
